@@ -31,11 +31,13 @@ CONSTANTS
   WUDS,       \* WINDOW_UPDATE deltas the client sends
   IWS,        \* SETTINGS_INITIAL_WINDOW_SIZE values the client sends
   HWRITES,    \* body sizes a handler writes in one call
+  CLS,        \* content-lengths a SYN_STREAM without FIN may declare (besides declaring none)
   MaxSteps    \* bound on the length of a behaviour
 
 U     == 16384
 W     == 65536
 MAX31 == 2147483647
+NoCL  == 0 - 1          \* no content-length declared
 
 RstProtocol == 1   RstInvalid == 2   RstRefused == 3   RstCancel == 5
 RstFlow == 7       RstInUse == 8     RstClosed == 9
@@ -48,6 +50,7 @@ VARIABLES
   buf,                \* octets in the request body pipe, not yet read by the handler
   h,                  \* handler: "none" | "run" | "blocked" (in Write) | "done"
   replied, pend,      \* SYN_REPLY sent; octets of handler data queued behind flow control
+  decl,               \* declared content-length of the request (-1 = none); body octets so far = acc
   \* ---- Layer P: observable history
   react,              \* outcome of the last client frame
   started,            \* ids for which a handler was started
@@ -64,7 +67,7 @@ VARIABLES
   panic,              \* an internal panic condition was hit
   n                   \* steps so far
 
-mvars == <<maxId, goaway, dead, st, nOpen, sIn, cIn, sOut, cOut, iw, buf, h, replied, pend>>
+mvars == <<maxId, goaway, dead, st, nOpen, sIn, cIn, sOut, cOut, iw, buf, h, replied, pend, decl>>
 pvars == <<react, started, acc, accC, cons, consC, wuS, wuC, out, outC, cgS, cgC, rsts, fins, quiet, over, bad, panic>>
 vars  == <<mvars, pvars, n>>
 
@@ -100,13 +103,21 @@ AllowedSynBad(id) ==
   IF id % 2 = 0 \/ id <= maxId \/ nOpen >= MAXS THEN AllowedSyn(id)
   ELSE SessionErr \cup Rst({RstProtocol, RstInvalid, RstRefused}) \cup {"acc"}
 
-AllowedData(id, len) ==
+\* 3.2.1: DATA lengths that do not add up to the declared content-length: "MUST return a 400 (Bad
+\* Request)" -- a 400 reply ("acc" on the wire), BFE's stream error PROTOCOL_ERROR, or a session error
+ClOver(id, len)      == decl[id] >= 0 /\ acc[id] + len > decl[id]
+ClShort(id, len, fin) == fin /\ decl[id] >= 0 /\ acc[id] + len < decl[id]
+AllowedData(id, len, fin) ==
   CASE State(id) = "idle"   -> SessionErr \cup Rst({RstInvalid, RstProtocol})          \* 2.2.2
     [] State(id) = "hcr"    -> SessionErr \cup Rst({RstClosed, RstProtocol, RstInvalid}) \* 2.3.6
     [] State(id) = "closed" -> SessionErr \cup Rst({RstInvalid, RstClosed, RstProtocol, RstCancel}) \cup {"acc"}
-    [] State(id) = "open"   -> IF len > 0 /\ (len > sIn[id] \/ len > cIn)
-                                 THEN SessionErr \cup Rst({RstFlow})                    \* 2.6.8
-                                 ELSE {"acc"}
+    [] State(id) = "open"   ->
+         LET overW == len > 0 /\ (len > sIn[id] \/ len > cIn)                          \* 2.6.8
+             clBad == ClOver(id, len) \/ ClShort(id, len, fin)
+         IN IF overW /\ clBad THEN SessionErr \cup Rst({RstFlow, RstProtocol})
+            ELSE IF overW THEN SessionErr \cup Rst({RstFlow})
+            ELSE IF clBad THEN SessionErr \cup Rst({RstProtocol}) \cup {"acc"}
+            ELSE {"acc"}      \* incl. the empty DATA frame with FLAG_FIN that ends any request
 
 AllowedWu(id, d) ==
   IF d = 0 THEN SessionErr \cup Rst({RstProtocol, RstFlow}) \cup {"acc"}               \* draft silent
@@ -124,10 +135,15 @@ AllowedSettings(v) ==
 WhySyn(id) == IF id % 2 = 0 THEN "syn:even" ELSE IF id < maxId THEN "syn:decreasing" ELSE IF id = maxId THEN "syn:same-id"
               ELSE IF nOpen >= MAXS THEN "syn:over-max-streams" ELSE "syn:ok"
 WhySynBad(id) == IF WhySyn(id) = "syn:ok" THEN "synbad:malformed-request" ELSE "synbad:" \o WhySyn(id)
-WhyData(id, len) == CASE State(id) = "idle" -> "data:idle-stream" [] State(id) = "hcr" -> "data:half-closed"
-                      [] State(id) = "closed" -> "data:closed-stream"
-                      [] OTHER -> IF len > 0 /\ len > sIn[id] THEN "data:over-stream-window"
-                                  ELSE IF len > 0 /\ len > cIn THEN "data:over-session-window" ELSE "data:ok"
+WhyData(id, len, fin) ==
+  CASE State(id) = "idle" -> "data:idle-stream" [] State(id) = "hcr" -> "data:half-closed"
+    [] State(id) = "closed" -> "data:closed-stream"
+    [] OTHER -> IF ClOver(id, len) THEN "data:over-content-length"
+                ELSE IF len > 0 /\ len > sIn[id] THEN "data:over-stream-window"
+                ELSE IF len > 0 /\ len > cIn THEN "data:over-session-window"
+                ELSE IF ClShort(id, len, fin) THEN "data:fin-short-of-content-length"
+                ELSE IF decl[id] = 0 THEN "data:ok-content-length-0"
+                ELSE IF decl[id] > 0 THEN "data:ok-content-length-n" ELSE "data:ok"
 WhyWu(id, d) == IF d = 0 THEN "wu:zero-delta" ELSE IF id = 0 THEN (IF AddOverflows(cOut, d) THEN "wu:session-overflow" ELSE "wu:session-ok")
                 ELSE IF ~Live(id) THEN "wu:dead-stream" ELSE IF AddOverflows(sOut[id], d) THEN "wu:stream-overflow"
                 ELSE IF sOut[id] < 0 THEN "wu:stream-ok-negative-window" ELSE "wu:stream-ok"
@@ -167,6 +183,7 @@ Init ==
   /\ sOut = [i \in IDS |-> 0] /\ cOut = W /\ iw = W
   /\ buf = [i \in IDS |-> 0]
   /\ h = [i \in IDS |-> "none"] /\ replied = [i \in IDS |-> FALSE] /\ pend = [i \in IDS |-> 0]
+  /\ decl = [i \in IDS |-> NoCL]
   /\ react = "acc" /\ started = {}
   /\ acc = [i \in IDS |-> 0] /\ accC = 0 /\ cons = [i \in IDS |-> 0] /\ consC = 0
   /\ wuS = [i \in IDS |-> 0] /\ wuC = 0 /\ out = [i \in IDS |-> 0] /\ outC = 0
@@ -203,8 +220,11 @@ ClientView(cs, cc) ==
 NoSend == UNCHANGED <<sOut, cOut, pend, out, outC, h, cgS, cgC, over>>
 
 \* ---- SYN_STREAM (processSynStream)
-Syn(id, fin) ==
+Syn(id, fin, cl) ==
   /\ Alive /\ Step
+  \* a content-length is declared only where it matters: request with a body, SYN_STREAM acceptable
+  /\ (cl # NoCL => ~fin /\ ~(id % 2 = 0 \/ id <= maxId) /\ nOpen + 1 <= MAXS)
+  /\ decl' = IF ~(id % 2 = 0 \/ id <= maxId) /\ nOpen + 1 <= MAXS THEN [decl EXCEPT ![id] = cl] ELSE decl
   /\ LET A == AllowedSyn(id) IN
      IF id % 2 = 0 \/ id < maxId THEN           \* ConnectionError(ProtocolError) -> GOAWAY
         /\ Outcome("goaway", A) /\ goaway' = TRUE
@@ -281,7 +301,7 @@ ResetLive(id, code) ==
 \* ---- DATA (processData)
 Data(id, len, fin) ==
   /\ Alive /\ Step
-  /\ LET A == AllowedData(id, len) IN
+  /\ LET A == AllowedData(id, len, fin) IN
      IF ~Live(id) THEN                          \* not in the map: RST INVALID_STREAM
         /\ Outcome(Tok(RstInvalid), A)
         /\ rsts' = rsts \cup {<<id, RstInvalid>>}
@@ -293,10 +313,22 @@ Data(id, len, fin) ==
         /\ ResetLive(id, RstClosed)
         /\ UNCHANGED <<maxId, goaway, dead, sIn, cIn, sOut, cOut, iw, buf, replied, started, acc, accC, cons, consC,
                        wuS, wuC, out, outC, cgS, cgC, over, fins, panic>>
+     ELSE IF ClOver(id, len) THEN               \* more than declared: body closed, RST PROTOCOL_ERROR
+        /\ Outcome(Tok(RstProtocol), A)
+        /\ ResetLive(id, RstProtocol)
+        /\ UNCHANGED <<maxId, goaway, dead, sIn, cIn, sOut, cOut, iw, buf, replied, started, acc, accC, cons, consC,
+                       wuS, wuC, out, outC, cgS, cgC, over, fins, panic>>
      ELSE IF len > 0 /\ Min(sIn[id], cIn) < len THEN    \* beyond the window: RST FLOW_CONTROL_ERROR
         /\ Outcome(Tok(RstFlow), A)
         /\ ResetLive(id, RstFlow)
         /\ UNCHANGED <<maxId, goaway, dead, sIn, cIn, sOut, cOut, iw, buf, replied, started, acc, accC, cons, consC,
+                       wuS, wuC, out, outC, cgS, cgC, over, fins, panic>>
+     ELSE IF ClShort(id, len, fin) THEN         \* octets taken, then FIN short of the declaration: RST
+        /\ Outcome(Tok(RstProtocol), A)
+        /\ sIn' = [sIn EXCEPT ![id] = @ - len] /\ cIn' = cIn - len
+        /\ acc' = [acc EXCEPT ![id] = @ + len] /\ accC' = accC + len
+        /\ ResetLive(id, RstProtocol)
+        /\ UNCHANGED <<maxId, goaway, dead, sOut, cOut, iw, buf, replied, started, cons, consC,
                        wuS, wuC, out, outC, cgS, cgC, over, fins, panic>>
      ELSE
         /\ Outcome("acc", A)
@@ -437,17 +469,18 @@ HFinish(id) ==
                  wuS, wuC, out, outC, cgS, cgC, over, panic>>
 
 Next ==
-  \/ \E id \in IDS, fin \in BOOLEAN : Syn(id, fin)
-  \/ \E id \in IDS, fin \in BOOLEAN : SynBad(id, fin)
-  \/ \E id \in IDS, len \in DSIZES, fin \in BOOLEAN : Data(id, len, fin)
-  \/ \E id \in IDS \cup {0}, d \in WUDS : Wu(id, d)
-  \/ \E id \in IDS : RstC(id)
-  \/ \E v \in IWS : Settings(v)
-  \/ \E k \in {"ping", "goaway", "headers"} : Other(k)
-  \/ \E id \in IDS, k \in DSIZES : HRead(id, k)
-  \/ \E id \in IDS : HReply(id)
-  \/ \E id \in IDS, k \in HWRITES : HWrite(id, k)
-  \/ \E id \in IDS : HFinish(id)
+  \/ \E id \in IDS, fin \in BOOLEAN, cl \in CLS \cup {NoCL} : Syn(id, fin, cl)
+  \/ /\ UNCHANGED decl
+     /\ \/ \E id \in IDS, fin \in BOOLEAN : SynBad(id, fin)
+        \/ \E id \in IDS, len \in DSIZES, fin \in BOOLEAN : Data(id, len, fin)
+        \/ \E id \in IDS \cup {0}, d \in WUDS : Wu(id, d)
+        \/ \E id \in IDS : RstC(id)
+        \/ \E v \in IWS : Settings(v)
+        \/ \E k \in {"ping", "goaway", "headers"} : Other(k)
+        \/ \E id \in IDS, k \in DSIZES : HRead(id, k)
+        \/ \E id \in IDS : HReply(id)
+        \/ \E id \in IDS, k \in HWRITES : HWrite(id, k)
+        \/ \E id \in IDS : HFinish(id)
 
 Spec == Init /\ [][Next]_vars
 
